@@ -580,7 +580,7 @@ impl Oracle for RecoveryOracle {
                 self.last_x.insert(*ep, (h.send_rate, h.max_send_rate));
                 let frames_free = h.tx_frame_window_size.saturating_sub(h.tx_frame_next_id.wrapping_sub(h.tx_frame_window_base_id));
                 let packets_free = h.tx_packet_window_size.saturating_sub(h.tx_packet_next_id.wrapping_sub(h.tx_packet_base_id) & 0xFFFFF);
-                self.idle.insert(*ep, h.send_queue_len == 0 && h.pending_queue_len == 0 && h.flush_alloc >= 0 && frames_free >= 2 && packets_free >= 1 && h.tx_alloc + 64 <= h.tx_max_alloc);
+                self.idle.insert(*ep, h.send_queue_len == 0 && h.pending_queue_len == 0 && h.ack_queue_len == 0 && !h.sync_reply && h.flush_alloc >= 0 && frames_free >= 2 && packets_free >= 1 && h.tx_alloc + 64 <= h.tx_max_alloc);
                 if h.send_rate <= 23 {
                     self.floor_seen = true;
                 }
